@@ -287,5 +287,9 @@ def witnessSdl : Node :=
 def witnessSmall : Node :=
   .mk "Document" 0 [("definitions", .many [.mk "OperationDefinition" 1 [("operation", .scalar "\"query\""), ("name", .one none), ("variable_definitions", .many []), ("directives", .many []), ("selection_set", .one (some (.mk "SelectionSet" 2 [("selections", .many [.mk "Field" 3 [("name", .one (some (.mk "Name" 4 [("value", .scalar "\"a\"")]))), ("alias", .one none), ("arguments", .many [.mk "Argument" 5 [("name", .one (some (.mk "Name" 6 [("value", .scalar "\"x\"")]))), ("value", .one (some (.mk "IntValue" 7 [("value", .scalar "\"1\"")])))]]), ("directives", .many [.mk "Directive" 8 [("name", .one (some (.mk "Name" 9 [("value", .scalar "\"d\"")]))), ("arguments", .many [])]]), ("selection_set", .one none)], .mk "Field" 10 [("name", .one (some (.mk "Name" 11 [("value", .scalar "\"b\"")]))), ("alias", .one none), ("arguments", .many []), ("directives", .many []), ("selection_set", .one (some (.mk "SelectionSet" 12 [("selections", .many [.mk "Field" 13 [("name", .one (some (.mk "Name" 14 [("value", .scalar "\"c\"")]))), ("alias", .one none), ("arguments", .many []), ("directives", .many []), ("selection_set", .one none)]])])))]])])))]])]
 
+/-- `{ id name id friends { id } id }` -/
+def witnessDup : Node :=
+  .mk "Document" 0 [("definitions", .many [.mk "OperationDefinition" 1 [("operation", .scalar "\"query\""), ("name", .one none), ("variable_definitions", .many []), ("directives", .many []), ("selection_set", .one (some (.mk "SelectionSet" 2 [("selections", .many [.mk "Field" 3 [("name", .one (some (.mk "Name" 4 [("value", .scalar "\"id\"")]))), ("alias", .one none), ("arguments", .many []), ("directives", .many []), ("selection_set", .one none)], .mk "Field" 5 [("name", .one (some (.mk "Name" 6 [("value", .scalar "\"name\"")]))), ("alias", .one none), ("arguments", .many []), ("directives", .many []), ("selection_set", .one none)], .mk "Field" 7 [("name", .one (some (.mk "Name" 8 [("value", .scalar "\"id\"")]))), ("alias", .one none), ("arguments", .many []), ("directives", .many []), ("selection_set", .one none)], .mk "Field" 9 [("name", .one (some (.mk "Name" 10 [("value", .scalar "\"friends\"")]))), ("alias", .one none), ("arguments", .many []), ("directives", .many []), ("selection_set", .one (some (.mk "SelectionSet" 11 [("selections", .many [.mk "Field" 12 [("name", .one (some (.mk "Name" 13 [("value", .scalar "\"id\"")]))), ("alias", .one none), ("arguments", .many []), ("directives", .many []), ("selection_set", .one none)]])])))], .mk "Field" 14 [("name", .one (some (.mk "Name" 15 [("value", .scalar "\"id\"")]))), ("alias", .one none), ("arguments", .many []), ("directives", .many []), ("selection_set", .one none)]])])))]])]
+
 
 end PyGql.Generated.VisitTable
